@@ -18,6 +18,20 @@ fn assoc(m: &BTreeMap<usize, u32>) -> String { format!("[{}]", m.iter().map(|(k,
 
 pub struct Observed { pub module: Module, pub pm: ParseMaps, pub em: EmitMaps, pub out: Vec<u8>, pub ain: AMod, pub aout: AMod }
 
+pub struct ObservedOut { pub module: Module, pub em: EmitMaps, pub out: Vec<u8>, pub aout: AMod }
+/// emit an in-memory module (capturing the emit-time maps) and decode the result
+pub fn observe_module(mut module: Module) -> std::result::Result<ObservedOut, String> {
+    let (rec, em) = irdump::IndexRecorder::for_module(&module);
+    module.customs.add(rec);
+    let out = module.emit_wasm();
+    let em = em.lock().unwrap().clone();
+    let aout = amod::decode(&out)?;
+    Ok(ObservedOut { module, em, out, aout })
+}
+pub fn id2i_coq(em: &EmitMaps) -> String {
+    format!("[(S_func, {}); (S_type, {}); (S_table, {}); (S_memory, {}); (S_global, {}); (S_data, {}); (S_elem, {})]",
+        assoc(&em.funcs), assoc(&em.types), assoc(&em.tables), assoc(&em.memories), assoc(&em.globals), assoc(&em.data), assoc(&em.elements))
+}
 /// parse (capturing the parse-time maps), emit (capturing the emit-time maps), decode both binaries
 pub fn observe(wasm: &[u8], cfg: &mut ModuleConfig) -> std::result::Result<Observed, String> {
     let (mut module, pm) = irdump::parse_with_maps(wasm, cfg).map_err(|e| format!("parse: {:#}", e))?;
